@@ -98,6 +98,25 @@ func (a *AirNode) close() {
 	}
 }
 
+// Reopen only reopens the machine from its database (no replay): the state an
+// operator meets who forgot the replay step.
+func (a *AirNode) Reopen() error {
+	a.close()
+	a.Dead = false
+	a.Restarts++
+	return a.Open(false)
+}
+
+// ReplayLogs replays the operation log of the given rounds on the open machine.
+func (a *AirNode) ReplayLogs(rounds []string) error {
+	for _, r := range rounds {
+		if err := a.M.ReplayOperationsLog(r); err != nil {
+			return fmt.Errorf("replay %s: %w", r, err)
+		}
+	}
+	return nil
+}
+
 // Restart reopens the machine from its database and replays the operation log
 // of the given rounds exactly once each, as HowTo.md prescribes.
 func (a *AirNode) Restart(rounds []string) error {
